@@ -222,6 +222,10 @@ MUTANTS = [
     (FF, "        yield [i for i, value in enumerate(row) if value]", "        yield [i for i, value in enumerate(row) if not value]", ['formats.fimi.iter_fimi_rows'], 'breaks'),
     (CX, "        if args.serialized is not None:\n            return cls.fromdict(args.serialized)\n        return cls(args.objects, args.properties, args.bools)\n\n    @classmethod\n    def fromfile",
          "        return cls(args.objects, args.properties, args.bools)\n\n    @classmethod\n    def fromfile", ['contexts.fromstring'], 'breaks'),
+    (DF, "            if objects is not None:\n                obj &= objects", "            if objects:\n                obj &= objects", ['definitions.take'], 'breaks'),
+    (DF, "            obj = self._objects.copy()\n            prop = self._properties.copy()\n            if objects is not None:",
+         "            obj = self._objects\n            prop = self._properties.copy()\n            if objects is not None:", ['definitions.take'], 'breaks'),
+    (DF, "                               if (o, p) in pairs})", "                               })", ['definitions.take'], 'breaks'),
 ]
 
 
